@@ -100,6 +100,13 @@ def handle (op : String) (j : Json) : Except String Json := do
           obj [("silent", Json.bool silent),
                ("nearest", match r.2 with | some s => optToJson ratToJson (nearest s al) | none => Json.null),
                ("n_allowed", natToJson al.length)]) out)]))
+  | "c19.bounds" =>
+    -- (first, last) object of the chart = bounds of what `m.stack()` ranges over (`Chart.bounds`)
+    let hasSv ← getBool j "has_sv"
+    let bpms ← getArr tpOf? j "bpms"
+    let svs ← getArr svOf? j "svs"
+    let notes ← getArr ratOf? j "notes"
+    .ok (optRes pairToJson (Chart.bounds ⟨hasSv, bpms, svs, notes⟩))
   | "c19.dom" =>
     let bpms ← getArr tpOf? j "bpms"
     let omax ← getRat j "omax"
